@@ -113,3 +113,19 @@ Proof.
   - apply decode_encode. exact E.
 Qed.
 Print Assumptions C01_decode_of_canonical_layout.
+
+(* the same for COMPRESSED data sections: the bits are the canonical column layout
+   (SpecC.canonical_bits_c: minimum, 6-bit increment width, increments, per column in
+   template order) and decoding them returns the layout's descriptors, links and values *)
+From PBK Require Import Column DecodeC EncodeC EncodeCG RoundTripC SpecC SpecCProofs.
+
+Theorem C01_decode_of_canonical_layout_compressed : forall T vals outs w g t,
+  encode_compressed_ghost T vals = Ok (outs, w, g) ->
+  canonical_bits_c T vals = Ok w /\
+  decode_compressed T (length vals) (w ++ t) = Ok (outs, g, t).
+Proof.
+  intros T vals outs w g t E. split.
+  - eapply encode_is_canonical_bits_c. eapply encode_compressed_ghost_is_encode. exact E.
+  - apply decode_encode_compressed. exact E.
+Qed.
+Print Assumptions C01_decode_of_canonical_layout_compressed.
